@@ -736,8 +736,9 @@ class C14(fw.Check):
             self.violate(f'the row filter offered for table {name} (scan {k}) cannot be evaluated on that table alone: {both[1]}',
                          witness, SIG_EVAL, {'label': label})
             return
-        self.violate(f'pre-filtering table {name} (scan {k}) by the offered row filter changes the result: {len(both)} rows '
-                     f'instead of {len(ignored)}', witness, sig, {'label': label, 'honoured': both, 'ignored': ignored})
+        change = f'{len(both)} rows instead of {len(ignored)}' if len(both) != len(ignored) else f'{len(both)} rows, but other ones'
+        self.violate(f'pre-filtering table {name} (scan {k}) by the offered row filter changes the result: {change}',
+                     witness, sig, {'label': label, 'honoured': both, 'ignored': ignored})
 
     def _judge(self, obs: dict, lines: list, pending: list):
         """account one driven statement, run the oracles on what the real code did, queue the model lines"""
@@ -749,7 +750,7 @@ class C14(fw.Check):
         for op in (('hints', 'strict'), ('hints', 'lenient'), ('lazy',), ('needs',), ('scoped',)):
             lines.append(sexp.dumps(op + (stored,)))
         entry = {'label': label, 'ast': stored, 'status': status, 'hints': hints, 'at': len(lines) - 5, 'exec': [],
-                 'lazy': obs.get('lazy')}
+                 'lazy': obs.get('lazy'), 'viol': (0, 0)}
         pending.append(entry)
         filtered = status == 'ok' and any(p for _, _, p in hints)
         shape = f'{label} origins={len(scans_spec(stored))} ' \
@@ -758,6 +759,8 @@ class C14(fw.Check):
         if status != 'ok':
             self.case(('stmt', stored), shape, nontrivial=False)
             return
+        before = len(self.violations)
+        entry['viol'] = (before, before)
         self._columns_oracle(stored, hints, obs['lazy'], label)
         sample = {'statement': sexp.dumps(stored)[:300], 'hints': canon_hints(hints)}
         if not obs['runs']:
@@ -771,12 +774,15 @@ class C14(fw.Check):
                 for mode in ('ignore', 'both'):
                     lines.append(sexp.dumps(('exec', mode, stored, db_sexp(run['db']))))
                 entry['exec'].append((len(lines) - 2, run))
+        entry['viol'] = (before, len(self.violations))
 
     def _compare(self, pending: list, answers: list):
         for entry in pending:
             strict, lenient = answers[entry['at']], answers[entry['at'] + 1]
             case = {'stmt': entry['ast'], 'label': entry['label']}
             if entry['status'] == 'error':
+                if entry['label'] == 'dslgen' and entry['hints'] != 'AttributeError':
+                    continue  # a construct of the shared generator outside this model (accounted as error:<class>)
                 if entry['hints'] == 'AttributeError':
                     if sexp.loads(strict) != ['error', 'AttributeError']:
                         self.diverge('parser raised AttributeError, the model offers hints', case, 'AttributeError', strict)
@@ -806,9 +812,23 @@ class C14(fw.Check):
                 self.diverge('spec `needs` (Lean) vs used columns per scan (oracle)', case, [sorted(n) for _, n, *_ in spec], needs)
             scoped = sexp.loads(answers[entry['at'] + 4])
             mine_scoped = ['ok', 'false' if has_outer(entry['ast']) else 'true', 'false' if has_alias(entry['ast']) else 'true']
-            if entry['label'] != 'dslgen' and scoped != mine_scoped:
+            if entry['label'] != 'dslgen' and scoped[:3] != mine_scoped:
                 self.diverge('hypotheses innerOnly / wellScoped (Lean) vs outer-join / aliased-scan detection (oracle)', case,
                              mine_scoped, scoped)
+            if entry['label'] != 'dslgen' and scoped[4] != 'true':
+                self.diverge('generated statement is not `shaped`', case, 'true', scoped)
+            proved = scoped[2] == 'true' and scoped[3] == 'true'  # hypotheses of C14_filter_partial_outer
+            self.extra['in_proved_fragment'] = self.extra.get('in_proved_fragment', 0) + int(proved)
+            self.extra['outer_joins_in_proved_fragment'] = self.extra.get('outer_joins_in_proved_fragment', 0) + \
+                int(proved and has_outer(entry['ast']))
+            if proved:
+                # a filter violation here contradicts the theorem: never to be taken for one of the listed findings
+                lo, hi = entry['viol']
+                for i in range(lo, hi):
+                    v = self.violations[i]
+                    if v.signature in (SIG_OUTER, SIG_ALIAS):
+                        self.violations[i] = v._replace(signature=SIG_FILTER,
+                                                        what=v.what + ' (statement is in the fragment proved safe)')
             for at, run in entry['exec']:
                 for offset, mode in enumerate(('ignore', 'both')):
                     modelled, real = model_rows(answers[at + offset]), run[mode]
@@ -833,25 +853,27 @@ class C14(fw.Check):
         self._batch([(f'corpus:{name}', ast, [gen.db() for _ in range(ndb + 1)]) for name, ast in _corpus()])
         # main stream
         items = []
-        for _ in range(self.n(240, 3000)):
+        for _ in range(self.n(240, 2000)):
             items.append(('gen', gen.statement(), [gen.db() for _ in range(ndb)]))
         self._batch(items)
         # provable fragment only (inner joins, no aliased scans): everything must agree, nothing is a known finding
         inner = Gen(rng, outer=0.0, alias=0.0)
-        self._batch([('inner', inner.statement(), [inner.db() for _ in range(ndb)]) for _ in range(self.n(170, 2500))])
+        self._batch([('inner', inner.statement(), [inner.db() for _ in range(ndb)]) for _ in range(self.n(170, 1600))])
         # boolean operands that are no predicates: AttributeError today (strict model) or no factors (lenient)
         nonpred = Gen(rng, outer=0.0, alias=0.0, nonpred=0.3)
         self._batch([('nonpred', nonpred.statement(), []) for _ in range(self.n(30, 300))], execs=False)
         # the shared generator: hints and columns only (strings, floats, dates, casts, limits, sets)
         broad = g.Gen(rng, small_ints=True)
         items = []
-        for _ in range(self.n(170, 2500)):
+        for _ in range(self.n(170, 1500)):
             ast = broad.statement(1)
             if ast[0] not in ('query', 'set'):
                 ast = Q(ast)
             text = sexp.dumps(ast)
             if ' -1)' in text and ' -2)' in text:
                 continue
+            if '(window ' in text:
+                continue  # the parser raises for window features
             if 'School' in text and 'Campus' in text:
                 continue  # twins with equal schemas are one and the same dsl.Table (C08): a duplicate origin
             items.append(('dslgen', ast, []))
@@ -890,7 +912,7 @@ class C14(fw.Check):
                     items.append((f'skeleton-on:{kind}', Q(J(a, b, kind, X('and', on, t)), [E(a, 'y'), E(b, 'x')])))
         if self.quick:
             items = self.rng.sample(items, 70)
-        self._batch([(label, ast, [gen.db() for _ in range(ndb)]) for label, ast in items])
+        self._batch([(label, ast, [gen.db() for _ in range(2)]) for label, ast in items])
 
     def _planted(self):
         """self-test of the comparison: a deliberately wrong model line (another literal) must come out different"""
@@ -960,7 +982,9 @@ class C14(fw.Check):
         found = self.violations[before:]
         del self.violations[before:]
         # the witnesses are in the corpus as well: a different way of failing on them is reported from there
-        same = [v for v in found if v.signature == entry.get('signature')]
+        if 'signature' not in entry:  # --replay of a replay file: anything that fails
+            return found[0] if found else None
+        same = [v for v in found if v.signature == entry['signature']]
         return same[0] if same else None
 
 
